@@ -11,4 +11,4 @@ for r in $(echo "$out" | sed -n 's/^VIOLATION.*replay=\([^ ]*\).*/\1/p' | head -
 import json
 d=json.load(open('$r')); f=d.get('failure') or {}
 print('  ', (f.get('kind') or '')+':'+str(f.get('signature') or d.get('broken')), (d.get('detail') or '')[-600:])"; done
-git -C /repo worktree remove --force $wt; rm -rf /verif/.cache/alt-$(printf %s "$wt" | sha1sum | cut -c1-10)
+A=/verif/.cache/alt-$(printf %s "$wt" | sha1sum | cut -c1-10); mkdir -p /verif/.cache/last-replays/$(basename $wt); cp -r $A/replays/. /verif/.cache/last-replays/$(basename $wt)/ 2>/dev/null; git -C /repo worktree remove --force $wt; rm -rf $A
